@@ -155,6 +155,25 @@ static int phdr_cb(struct dl_phdr_info* info, size_t, void*) {
 void image_init() {
     g_image.clear();
     dl_iterate_phdr(phdr_cb, nullptr);
+    // read-only file mappings that are not program segments: the locale archives glibc maps in setlocale() (the <ctype.h> tables of a
+    // UTF-8 locale live there); loads from them are as harmless as loads from libc's own read-only data
+    if (FILE* m = fopen("/proc/self/maps", "r")) {
+        char line[512];
+        while (fgets(line, sizeof line, m)) {
+            unsigned long lo = 0, hi = 0; char perms[8] = {0}; unsigned long off = 0; char dev[16] = {0}; unsigned long ino = 0; char path[256] = {0};
+            int n = sscanf(line, "%lx-%lx %7s %lx %15s %lu %255s", &lo, &hi, perms, &off, dev, &ino, path);
+            if (n < 7 || perms[0] != 'r' || perms[1] == 'w' || path[0] != '/') continue;
+            bool covered = false;
+            for (auto& sgm : g_image) if (lo >= sgm.lo && hi <= sgm.hi) covered = true;
+            if (covered) continue;
+            bool overlap = false;
+            for (auto& sgm : g_image) if (lo < sgm.hi && sgm.lo < hi) overlap = true;
+            if (overlap) continue;   // partly a program segment already: leave it to the segment table
+            Seg sg; sg.lo = lo; sg.hi = hi; sg.w = false;
+            g_image.push_back(sg);
+        }
+        fclose(m);
+    }
     std::sort(g_image.begin(), g_image.end(), [](const Seg& a, const Seg& b) { return a.lo < b.lo; });
 }
 
